@@ -149,6 +149,12 @@ func c04Ops() []c04Op {
 		{"har-hit", []byte(`{"log":{"version":"1.2","entries":[]}}`), 0},
 		{"gltf-hit", []byte(`{"asset":{"version":"2.0"}}`), 0},
 		{"json-array", []byte(`[1,2,3]`), 0},
+		// deciding member behind an earlier sibling that opens and closes a level
+		{"geojson-after-sibling", []byte(`{"bbox":[0,0,1,1],"id":{"a":1},"type":"Feature"}`), 0},
+		{"gltf-after-sibling", []byte(`{"asset":{"generator":"g","extras":[1],"version":"2.0"}}`), 0},
+		{"har-after-sibling", []byte(`{"log":{"pages":[{"id":1}],"version":"1.2"}}`), 0},
+		{"abort-array-depth129-short-file", []byte(strings.Repeat("[", 129)), 0},
+		{"abort-depth200-cut", []byte(strings.Repeat(`{"k":`, 200) + "1" + strings.Repeat("}", 200)), 700},
 		{"abort-depth1", deep(1), 0},
 		{"abort-depth5", deep(5), 0},
 		{"abort-depth127", deep(127), 0},
